@@ -501,6 +501,13 @@ def run_check(prop, tier, seed, args):
         print(f"  invariant={vv.inv} run={r['i']} seed={seed} items={len(mdesc['items'])} n_workers={mdesc['n_workers']}")
         print(f"  detail: {vv.detail}")
         rc = 1
+    nre = 0
+    if rc == 0 and not agg.violations:
+        from .cli import recheck_sample
+
+        nre = recheck_sample(task, agg)
+        if nre < 0:
+            return 2
     write_evidence(prop, tier, seed, "exploration", agg, time.time() - t0,
                    "one case = one simulated parallel_add call (workload, worker count, sketch subset, fault plan and scheduler "
                    "personality drawn per run; every scheduling decision from the run PRNG); distinct = distinct sha1 of "
@@ -510,5 +517,6 @@ def run_check(prop, tier, seed, args):
                     "exit codes, asynchronous kill, per-process closed-queue errors); feeder threads, pipes and signals inside kernels are not modelled",
                     "sampling, not proof"],
                    extra={"distinct_item_to_worker_assignments": len(assignments), "distinct_per_worker_orders": len(orders),
-                          "stop_reason": reason or "completed", "runs_requested": n_runs, "workers": workers, "tree_hash": boot.TREE_HASH})
+                          "stop_reason": reason or "completed", "runs_requested": n_runs, "workers": workers, "tree_hash": boot.TREE_HASH,
+                          "runs_reexecuted_for_determinism": nre})
     return rc
